@@ -65,6 +65,7 @@ labels through `crun`, a line whose labels are not enabled answers `error`):
   `cfinish id=<n>` → `ok`                                  (coarse bulk delete, cEnd)
   `bgsnap` → `snap keys=…` (periodic goroutine takes the pending tick and snapshots); `bgfinish` → `ok`
   `stop` → `ok` (stopCall, bgExit, stopReturn)
+  `stopcall id=<n>` → `returned` | `blocked` (a concurrent Stop caller); `stopwait id=<n>` → `ok`
 -/
 
 def sortStrings (xs : List String) : List String :=
@@ -132,7 +133,31 @@ def concStep (s : CState) (l : Line) : CState × String :=
       | none => (s, "error")
     | none => (s, "error")
   | "bgfinish" => runLabels s (bulkLabels s 0) (fun _ => "ok")
-  | "stop" => runLabels s [.stopCall, .bgExit, .stopReturn] (fun _ => "ok")
+  | "stop" =>
+    -- a Stop call that is expected to return at once (caller id 0 of the script)
+    let exitL : List Label := if s.bg = .idle then [.bgExit] else []
+    runLabels s ([.stopCall 0] ++ exitL ++ [.stopReturn 0]) (fun _ => "ok")
+  | "stopcall" =>
+    -- a concurrent Stop caller: `returned` iff, after the internal steps that are enabled
+    -- (the idle periodic goroutine seeing stopCh closed), its `stopReturn` is enabled
+    match l.nat? "id" with
+    | some id =>
+      match cstep s (.stopCall id) with
+      | some s1 =>
+        let s2 := match cstep s1 .bgExit with | some x => x | none => s1
+        match cstep s2 (.stopReturn id) with
+        | some s3 => (s3, "returned")
+        | none => (s2, "blocked")
+      | none => (s, "error")
+    | none => (s, "error")
+  | "stopwait" =>
+    match l.nat? "id" with
+    | some id =>
+      let s1 := match cstep s .bgExit with | some x => x | none => s
+      match cstep s1 (.stopReturn id) with
+      | some s2 => (s2, "ok")
+      | none => (s, "error")
+    | none => (s, "error")
   | "dump" => (s, cdump s)
   | _ => (s, "error")
 
